@@ -66,6 +66,7 @@ template <class T> static void run_T(Choice &c, Ctx &cx)
             long tail_true = (2 * panel + 2 + 3) * (long)P.m * (long)sizeof(int) + ((long)P.m * panel + std::max<long>(P.m, (maxsuper + rowblk) * panel)) * (long)sizeof(T) + 16;
             long est = 2 * std::max<long>(std::max<long>(need, (long)qo.info - n), (long)b.for_lu + tail_true) + 512;
             switch (kind) { case 0: cf.lwork = est; break; case 1: cf.lwork = est + 4; break; case 2: cf.lwork = est + (long)(extra % 4096); break; case 3: cf.lwork = 10 * est; break; default: cf.lwork = 3 * est + (long)(extra % 64); }
+            if (cx.dump) cx.d(fmt("config %zu: %s ...", i, cf.str().c_str()));
             IsoResult r = factor_isolated<T>(P, cf, heapfill, true, o, 10);
             if (cx.dump) cx.d(fmt("config %zu: %s -> %s info=%lld expansions=%d digest=%016llx", i, cf.str().c_str(), r.status == IsoResult::OK ? "returned" : (r.status == IsoResult::HANG ? "HANG" : "CRASH"), o.info, o.expansions, (unsigned long long)o.digest));
             if (r.status != IsoResult::OK) {
